@@ -235,3 +235,24 @@ func (c *Capture) Write(p []byte) (int, error) {
 	c.Bufs = append(c.Bufs, p)
 	return len(p), nil
 }
+
+// NondetI64In returns a value in [lo,hi] (bounds are part of the variable's
+// declaration under the executor: no fork, tight intervals).
+func NondetI64In(name string, lo, hi int64) int64 {
+	v := NondetI64(name)
+	Assume(v >= lo && v <= hi)
+	return v
+}
+
+func NondetU64In(name string, lo, hi uint64) uint64 {
+	v := NondetU64(name)
+	Assume(v >= lo && v <= hi)
+	return v
+}
+
+// NondetU256Below returns a value in [0,bound).
+func NondetU256Below(name string, bound *uint256.Int) *uint256.Int {
+	v := NondetU256(name)
+	Assume(v.Lt(bound))
+	return v
+}
